@@ -69,7 +69,7 @@ def _run_job(args):
     qn, inst, prop, timeout_ms, cross = args
     from pyvc import units
     if isinstance(_ENG, tuple):
-        return dict(qualname=qn, instance=inst, error=_ENG[1], obls=[], undecided=None, paths=0, time_s=0, src_hash=None)
+        return dict(qualname=qn, instance=inst, error=_ENG[1], obls=[], undecided=None, paths=0, time_s=0, src_hash=None, dead_ends=[])
     eng = _ENG
     r = units.run_unit(eng, qn, timeout_ms=timeout_ms, instance=inst, cross_check=cross)
     obls = []
@@ -89,7 +89,7 @@ def _run_job(args):
             d['smt_head'] = str(o.cond)[:600]
         obls.append(d)
     return dict(qualname=qn, instance=inst, error=r.error, undecided=r.undecided, paths=r.paths,
-                time_s=round(r.time_s, 3), src_hash=r.src_hash, obls=obls)
+                time_s=round(r.time_s, 3), src_hash=r.src_hash, obls=obls, dead_ends=list(r.dead_ends))
 
 
 def run_property(prop, tier='quick', nproc=None):
@@ -122,4 +122,44 @@ def bounded_jobs(prop):
             continue
         if prop in c.all_props():
             out.append(qn)
+    return out
+
+
+def immutable_conflicts(eng):
+    """fields the sidecar declares immutable (never forgotten at a havoc, read as constants by every unit) that some
+    method of the class other than __init__ assigns or mutates in place - whether or not that method is under contract"""
+    import ast
+    from pyvc.heap import KLASSES
+    MUT = {'append', 'add', 'extend', 'pop', 'popitem', 'setdefault', 'update', 'remove', 'clear', 'discard', 'insert', 'sort', 'reverse'}
+    out = []
+    for kname, k in KLASSES.items():
+        if k.external:
+            continue
+        names = [kname] + list(getattr(k, 'subclass_methods', []) or [])
+        for m in eng.repo.modules.values():
+            for nm in names:
+                ci = m.classes.get(nm)
+                if ci is None:
+                    continue
+                for mname, fi in ci.methods.items():
+                    if mname == '__init__':
+                        continue
+                    for n in ast.walk(fi.node):
+                        tgts = []
+                        if isinstance(n, ast.Assign):
+                            tgts = n.targets
+                        elif isinstance(n, (ast.AugAssign, ast.AnnAssign)):
+                            tgts = [n.target]
+                        elif isinstance(n, ast.Delete):
+                            tgts = n.targets
+                        elif isinstance(n, ast.Call) and isinstance(n.func, ast.Attribute) and n.func.attr in MUT:
+                            tgts = [n.func.value]
+                        for t in tgts:
+                            for t2 in (t.elts if isinstance(t, (ast.Tuple, ast.List)) else [t]):
+                                while isinstance(t2, ast.Subscript):
+                                    t2 = t2.value
+                                if isinstance(t2, ast.Attribute) and isinstance(t2.value, ast.Name) and t2.value.id in ('self', 'cls'):
+                                    f = t2.attr
+                                    if f in k.fields and not k.fields[f][1]:
+                                        out.append((kname, f, '%s.%s' % (nm, mname), n.lineno))
     return out
